@@ -50,8 +50,13 @@ FN = {"extract": "extract_fields", "remove": "remove_fields", "reorder": "reorde
 # ---------------------------------------------------------------------------------
 _FNAMES = ["a", "b", "c", "d", "e", "f", "g", "h", "p", "q", "x", "y", "z", "w", "u", "v", "zz", "r", "s", "t"]
 _UCP = [chr(c) for c in list(range(0x41, 0x5b)) + [0xe9, 0xdf, 0x3b1, 0x20ac, 0x4e2d, 0x1d11e, 0x10ffff, 0x7e, 0x21, 0x100]]
-_DEFAULTS = {"d1": (7, 2.5, b"ab", "é"), "d2": (9, -1e10, b"x", "zq"), "d3": (12, 0.125, b"q~", "€")}
-_BOOLPAT = {"d1": 252, "d2": 253, "d3": 254}      # a bool field is always a sub-array of 8: one byte of pattern per item
+# default values per kind (integer, float, bytes, unicode).  d4 / d5 are the values a detour through another type
+# loses: integers at the ends of the field's own range (64-bit: not representable as a double), 0.1, '0'
+_DEFAULTS = {"d1": (7, 2.5, b"ab", "é"), "d2": (9, -1e10, b"x", "zq"), "d3": (12, 0.125, b"q~", "€"),
+             "d4": (None, 0.1, b"~z", "ÿ€"), "d5": (None, -1e30, b"0", "0")}
+_BOOLPAT = {"d1": 65531, "d2": 65532, "d3": 65533, "d4": 65534, "d5": 65535}   # a bool field is always a sub-array of 16 flags
+_ARRAY_DEFAULTS = ("H.p", "H.q", "H.s")            # data tokens handed over as per-field ARRAY defaults / values
+_SPECIAL = ("zero",) + tuple(sorted(_DEFAULTS))
 
 
 class Unusable(MachineryError):
@@ -60,7 +65,11 @@ class Unusable(MachineryError):
 
 def token_index(tok):
     a, _, n = tok.partition(".")
-    if len(a) != 1 or n not in _FNAMES or not ("A" <= a <= "H"):
+    if len(a) != 1 or not ("A" <= a <= "H"):
+        raise MachineryError("unknown data token %r" % tok)
+    if n[:1] == "f" and n[1:].isdigit() and 1 <= int(n[1:]) <= 70:      # fields f1 .. f70 of a wide table
+        return 160 + (ord(a) - 65) * 70 + int(n[1:])                       # 161..720
+    if n not in _FNAMES:
         raise MachineryError("unknown data token %r" % tok)
     return (ord(a) - 65) * len(_FNAMES) + _FNAMES.index(n) + 1          # 1..160
 
@@ -70,25 +79,31 @@ def native_dtype(kind):
 
 
 def _bits(p):
-    return np.array([(p >> k) & 1 for k in range(8)], dtype=bool)
+    return np.array([(p >> k) & 1 for k in range(16)], dtype=bool)
 
 
 def leaf_default(tok, kind, sub=()):
     """the default value token `tok` stands for in a (leaf) field of this kind"""
     i, f, b, u = _DEFAULTS[tok]
     c = kind[0]
+    if i is None and c in "iuMmO":
+        info = np.iinfo(native_dtype(kind) if c in "iu" else np.int64)
+        if tok == "d4":
+            i = int(info.max) - (58 if info.bits == 64 else 2)
+        else:
+            i = int(info.min) + 1 if c != "u" else (2 ** 53 + 1 if info.bits == 64 else int(info.max) // 2 + 2)
     if c in "iu":
         return i
     if c == "f":
-        return f if kind != "f2" else max(-6e4, f)
+        return f if kind != "f2" else {"d2": -6e4, "d5": -1234.5}.get(tok, f)
     if c == "c":
         return complex(f, -1.25)
     if c == "b":
-        return _bits(_BOOLPAT[tok]).reshape(tuple(sub) if sub else (8,))
+        return _bits(_BOOLPAT[tok]).reshape(tuple(sub) if sub else (16,))
     if c in "Mm":
         return np.array(i, dtype="i8").view(native_dtype(kind))[()]
     if c == "O":
-        return "default:%d" % i                          # (a tuple or list would be taken for a sequence of values)
+        return "default:%s" % tok                        # (a tuple or list would be taken for a sequence of values)
     w = int(kind[1:])
     return b[:w] if c == "S" else u[:w]
 
@@ -119,14 +134,14 @@ def _materialise(tok, kind, shape, salt):
     shape = tuple(shape)
     n = int(np.prod(shape, dtype=np.int64)) if shape else 1
     c = kind[0]
-    if c == "b" and n % 8:
-        raise Unusable("a bool field needs 8 elements per item")
+    if c == "b" and n % 16:
+        raise Unusable("a bool field needs 16 elements per item")
     if tok == "zero":
         return np.zeros(shape, dtype=dt)                  # (object: the integer 0, as np.zeros gives)
     if tok in _DEFAULTS:
         out = np.empty(shape, dtype=dt)
         if c == "b":
-            out.reshape(-1, 8)[...] = _bits(_BOOLPAT[tok])
+            out.reshape(-1, 16)[...] = _bits(_BOOLPAT[tok])
         elif c == "O":
             for ix in np.ndindex(*shape):
                 out[ix] = leaf_default(tok, kind)
@@ -142,7 +157,7 @@ def _materialise(tok, kind, shape, salt):
         elif w == 2:
             v = t * 100 + j + 1
         else:
-            v = (t * 37 + j * 11) % 120 + 1
+            v = (np.where(j % 2 == 0, t % 120, t // 120) + j * 11) % 120 + 1     # (two elements identify the token)
         if c != "u":
             v = np.where(j % 2 == 1, -v, v)
         idt = dt if c in "iu" else np.dtype("=i8")
@@ -160,8 +175,8 @@ def _materialise(tok, kind, shape, salt):
         v.real = _floats(t, j, n, fdt)
         v.imag = -_floats(t + 1, j, n, fdt)[::-1] / 2
     elif c == "b":
-        p = (token_index(tok) + 31 * salt) % 251 + 1                           # 1..251, injective in the token
-        v = np.empty((n // 8, 8), dtype=bool)
+        p = token_index(tok) + 1000 * salt                                     # < 65531, injective in the token
+        v = np.empty((n // 16, 16), dtype=bool)
         v[...] = _bits(p)
         v[1::2] = ~v[1::2]
     elif c == "S":
@@ -241,13 +256,24 @@ def build(a):
     return arr
 
 
-def default_value(tok, f):
-    """the value handed to the real code for default token `tok` of (abstract) field f: a python scalar, or one
-    structure (numpy.void) for a nested field"""
+def default_value(tok, f, shape=(), as_numpy=False):
+    """the value handed to the real code for default token `tok` of (abstract) field f: a python scalar (as_numpy:
+    the numpy scalar of the field's own type), one structure (numpy.void) for a nested field, or - `tok` a data
+    token - a per-field ARRAY of the field's full shape (`shape` = shape of the table)"""
+    if "." in tok:
+        full = tuple(shape) + tuple(f["sub"])
+        if f["kind"] != "struct":
+            return materialise(tok, f["kind"], full)
+        z = np.zeros(full, dtype=np.dtype(descr_of(f["inner"])))
+        fill(z, f, tok)
+        return z
     if f["kind"] != "struct":
         if tok == "zero":
             return 0 if f["kind"][0] in "iuf" else "" if f["kind"][0] in "SU" else np.zeros((), dtype=native_dtype(f["kind"]))[()]
-        return leaf_default(tok, f["kind"], f["sub"])
+        v = leaf_default(tok, f["kind"], f["sub"])
+        if as_numpy and f["kind"][0] in "iufcSU":
+            v = np.array(v, dtype=native_dtype(f["kind"]))[()]        # np.int64(...), np.float32(...), np.bytes_(...)
+        return v
     z = np.zeros((), dtype=np.dtype(descr_of(f["inner"])))
     fill(z, f, tok)
     return z[()]
@@ -326,7 +352,7 @@ class Universe:
     """the data tokens of one scenario; (type signature, full shape) -> {native bytes of the leaves: token}"""
 
     def __init__(self, tokens):
-        self.tokens = sorted(set(tokens) | {"zero", "d1", "d2", "d3"})
+        self.tokens = sorted(set(tokens) | set(_SPECIAL) | set(_ARRAY_DEFAULTS))
         self.tables = _TABLES.setdefault(tuple(self.tokens), {})
 
     def table(self, f, shape):
@@ -337,7 +363,7 @@ class Universe:
             for tok in self.tokens:
                 parts = []
                 _expected_bytes(tok, f, shape, [0, f["kind"] == "struct"], parts)
-                if tok not in ("zero", "d1", "d2", "d3") and len(set(parts)) < len(parts):
+                if tok not in _SPECIAL and len(set(parts)) < len(parts):
                     raise Unusable("two leaves of %s hold the same data for token %s" % (key[0], tok))
                 b = b"\0|".join(parts)
                 if b in tb:
@@ -511,7 +537,7 @@ def exec_op(cur, op, pool, uni):
                 if all(f["tok"] == "zero" for f in op["add"]):
                     res = nu.add_fields(cur, d)
                 else:
-                    dv = [default_value(f["tok"], f) for f in op["add"]]
+                    dv = [default_value(f["tok"], f, cur.shape, op["form"] == "descr_np") for f in op["add"]]
                     res = nu.add_fields(cur, d, defaults=dv[0] if len(dv) == 1 and op["form"] == "dtype" else dv)
                 obs.update(arr=project(res, uni), fresh=not np.shares_memory(res, cur), frame=unchanged(snap))
                 nxt = res
@@ -533,7 +559,7 @@ def exec_op(cur, op, pool, uni):
                 nxt = dst
             elif k == "copy_by_name":
                 have = {n: field_of_dtype(n, cur.dtype.fields[n][0]) for n in cur.dtype.names}
-                vals = [default_value(t, have[n]) if n in have else 1 for n, t in zip(op["names"], op["vals"])]
+                vals = [default_value(t, have[n], cur.shape) if n in have else 1 for n, t in zip(op["names"], op["vals"])]
                 if op["form"] == "scalar":
                     # (an array-valued default - the 8 flags of a bool field - would be taken for the sequence of values)
                     nu.copy_fields_by_name(cur, op["names"][0], [vals[0]] if isinstance(vals[0], np.ndarray) else vals[0])
@@ -697,7 +723,7 @@ def judge(ctx, steps, recs, what, tally):
 _CAT = [("i4", [], "<"), ("i4", [], ">"), ("f8", [], "<"), ("f8", [], ">"), ("S3", [], "|"), ("U2", [], "<"), ("i2", [2], "<"),
         ("f4", [2, 2], "<"), ("i8", [], ">"), ("u8", [], "<"), ("u2", [], ">"), ("u4", [3], ">"), ("f4", [], ">"), ("S8", [], "|"),
         ("U5", [], ">"), ("U2", [2], ">"), ("S2", [1], "|"), ("i1", [], "|"), ("u1", [2], "|"), ("f8", [1, 2], ">"), ("i2", [], ">"),
-        ("b1", [8], "|"), ("b1", [2, 4], "|"), ("c8", [], ">"), ("c16", [2], "<"), ("f2", [], "<"), ("f2", [3], ">"),
+        ("b1", [16], "|"), ("b1", [2, 8], "|"), ("c8", [], ">"), ("c16", [2], "<"), ("f2", [], "<"), ("f2", [3], ">"),
         # outside the quantifier of the statement (judged, tallied, not gating)
         ("M8[s]", [], "<"), ("M8[ns]", [2], ">"), ("m8[ms]", [], ">"), ("O", [], "|")]
 _NLEAF_INSIDE = 27
@@ -714,16 +740,37 @@ def _flip(f):
     return dict(f, order={"<": ">", ">": "<"}.get(f["order"], f["order"]), inner=[_flip(g) for g in f["inner"]])
 
 
-def rand_type(rng, outer_names, depth=0):
+def rand_type(rng, outer_names, depth=0, wide=False):
     """a field type: a leaf of the catalogue or (one in four) a nested structured type whose inner names are drawn
     from the names of the enclosing array, the name no array has, and names of their own"""
     if depth < 2 and rng.random() < (0.25 if depth == 0 else 0.2):
         pool = list(outer_names) + ["zz", "m", "n", "k", "x", "p", "q", "w"]
-        inner = [_fld(nm, rand_type(rng, outer_names, depth + 1), "-") for nm in rng.sample(pool, rng.randrange(1, 4))]
+        inner = [_fld(nm, rand_type(rng, outer_names, depth + 1, wide), "-") for nm in rng.sample(pool, rng.randrange(1, 4))]
         return ("struct", rng.choice(_SUBS), "|", inner)
-    if depth:
-        return rng.choice(_CAT[:_NLEAF_INSIDE] if rng.random() < 0.9 else _CAT)
-    return rng.choice(_CAT)
+    while True:
+        t = rng.choice(_CAT[:_NLEAF_INSIDE] if depth and rng.random() < 0.9 else _CAT)
+        if not (wide and t[0] in ("i1", "u1")):          # (with the many tokens of a wide table two 1-byte fields would coincide)
+            return t
+
+
+def _usable_batch(cands):
+    return [_usable(scen, ops) for scen, ops in cands]
+
+
+def _usable(scen, ops):
+    """can every field type / shape the chain can produce be told apart by its data?  (else: draw another scenario)"""
+    try:
+        uni = scenario_universe(scen)
+        for a in [scen["init"]] + list(scen["pool"].values()):
+            for f in a["fields"]:
+                uni.table(f, list(a["shape"]) + list(f["sub"]))
+                uni.table(f, list(scen["init"]["shape"]) + list(f["sub"]))
+        for op in ops:
+            for f in op["add"]:
+                uni.table(f, list(scen["init"]["shape"]) + list(f["sub"]))
+    except Unusable:
+        return False                  # two tokens would coincide (1-byte kinds of one element, flags of a 0-d array)
+    return True
 
 
 def seeded_chain(rng):
@@ -731,7 +778,11 @@ def seeded_chain(rng):
     size = int(np.prod(shape)) if shape else 1
     n = rng.randrange(1, 7)
     names = _FNAMES[:8]
-    RT = lambda: rand_type(rng, names[:n])                                        # noqa: E731
+    wide = rng.random() < 0.1
+    if wide:                                  # a wide table: field positions beyond 8, 16, 32, 64
+        n = rng.choice([9, 10, 16, 17, 33, 40, 65])
+        names = ["f%d" % (k + 1) for k in range(n)]
+    RT = lambda: rand_type(rng, names[:min(n, 8)], wide=wide)                     # noqa: E731
     init = {"shape": shape, "fields": [_fld(names[k], RT(), "A." + names[k]) for k in range(n)]}
     other = [s for s in _SHAPES if (int(np.prod(s)) if s else 1) != size]
     pool = {
@@ -763,7 +814,7 @@ def seeded_chain(rng):
             if not op["names"]:
                 op["form"] = "none"
         elif k == "copy_by_name":
-            op.update(names=pick[:3], vals=[rng.choice(["d1", "d2", "d3"]) for _ in pick[:3]])
+            op.update(names=pick[:3], vals=[rng.choice(["d1", "d2", "d3", "d4", "d5", "H.p"]) for _ in pick[:3]])
             if len(op["names"]) == 1 and rng.random() < 0.5:
                 op["form"] = "scalar"
         elif k == "add":
@@ -771,8 +822,8 @@ def seeded_chain(rng):
             if rng.random() < 0.15:
                 newn[0] = rng.choice(have)
             dflt = rng.random() < 0.5
-            op.update(add=[_fld(nm, RT(), rng.choice(["d1", "d2", "d3"]) if dflt else "zero") for nm in newn],
-                      form=rng.choice(["descr", "dtype"]))
+            op.update(add=[_fld(nm, RT(), rng.choice(["d1", "d2", "d3", "d4", "d4", "d5", "d5", "H." + nm]) if dflt else "zero") for nm in newn],
+                      form=rng.choice(["descr", "dtype", "descr_np"]))
         elif k == "combine":
             ids = rng.sample(["B", "C", "F"], rng.randrange(0, 4))
             if rng.random() < 0.15:
@@ -810,9 +861,13 @@ BOUNDS = {
     "quick": dict(
         single=dict(Shapes={0, 1, 2}, NFields={1, 2, 3}, Rots={0, 3, 6, 9}, MaxDepth=1, Names1=2, NamesN=1, LeanFrom=1,
                     Forms1={"list", "tuple", "ndarray", "scalar"}),
-        # (i4, nested{a, zz}) with names differing in case;  (i2(2,), nested(2,){b, m{a, x}, p}) with non-ASCII / plain names
+        # (i8, nested{a, zz}) with names differing in case;  (i2(2,), nested(2,){b, m{a, x}, p}) with non-ASCII / plain names
         chains=[dict(Shapes={2}, NFields={2}, Rots={0}, MaxDepth=3, Names1=1, NamesN=1, LeanFrom=2, Forms1={"list"}),
                 dict(Shapes={0, 1}, NFields={2}, Rots={6}, MaxDepth=2, Names1=2, NamesN=2, LeanFrom=2, Forms1={"list"})],
+        # wide tables (the algebra is size independent - BlockLaw -, the implementation need not be): 9 fields with every
+        # pair of positions in both orders, 33 fields naming positions around 8 / 16 / 32
+        # (a wide table comes in one shape, (#fields div 3) mod 3: 9 fields 0-d, 33 fields 2-d)
+        wide=[dict(Shapes={0, 1, 2}, NFields={9, 33}, Rots={2}, MaxDepth=1, Names1=2, NamesN=1, LeanFrom=1, Forms1={"list"}, Marks={1, 2, 8, 9, 17, 32})],
         seeded=1500),
     "thorough": dict(
         single=dict(Shapes={0, 1, 2}, NFields={1, 2, 3, 4}, Rots=set(range(24)), MaxDepth=1, Names1=3, NamesN=1, LeanFrom=1,
@@ -820,14 +875,20 @@ BOUNDS = {
         chains=[dict(Shapes={s}, NFields={nf}, Rots={r}, MaxDepth=3, Names1=1, NamesN=1, LeanFrom=3, Forms1={"list"})
                 for s, nf, r in ((0, 2, 1), (1, 3, 6), (2, 2, 12), (2, 3, 4), (0, 3, 19), (1, 2, 7))] +
                [dict(Shapes={0, 1, 2}, NFields={2, 3}, Rots={0, 7, 14, 21}, MaxDepth=2, Names1=2, NamesN=2, LeanFrom=2, Forms1={"list"})],
+        wide=[dict(Shapes={0, 1, 2}, NFields={9, 10}, Rots={0, 17}, MaxDepth=1, Names1=3, NamesN=1, LeanFrom=1, Forms1={"list", "ndarray"}, Marks={1}),
+              dict(Shapes={0, 1, 2}, NFields={9}, Rots={5}, MaxDepth=2, Names1=2, NamesN=1, LeanFrom=1, Forms1={"list"}, Marks={1}),
+              dict(Shapes={0, 1, 2}, NFields={16, 17, 33, 40}, Rots={4, 13}, MaxDepth=1, Names1=2, NamesN=1, LeanFrom=1, Forms1={"list"},
+                   Marks={1, 2, 8, 9, 10, 16, 17, 32}),
+              dict(Shapes={0, 1, 2}, NFields={65}, Rots={3}, MaxDepth=1, Names1=2, NamesN=1, LeanFrom=1, Forms1={"list"}, Marks={1, 8, 9, 33, 64})],
         seeded=30000),
 }
 ACTIONS = ["Start", "Extract", "Remove", "Reorder", "Add", "Combine", "Copy", "CopyByName", "Split"]
-INVARIANTS = ["NamesDistinct", "ShapeInv", "StepLaws", "RejectLaws", "MechRefines", "RefAccepted"]
+INVARIANTS = ["NamesDistinct", "ShapeInv", "StepLaws", "RejectLaws", "MechRefines", "RefAccepted", "BlockLaw"]
 
 
 def _consts(b, **kw):
     d = dict(b, FixedShape=True, DoExport=False, NameStyles={0, 1, 2}, NameCover=True)
+    d.setdefault("Marks", {1})
     d.update(kw)
     return d
 
@@ -837,7 +898,8 @@ def run(ctx):
     steps = Steps()
     tally = {}
     nbeh = 0
-    configs = [("single operations", B["single"])] + [("chains %d" % (i + 1), c) for i, c in enumerate(B["chains"])]
+    configs = [("single operations", B["single"])] + [("chains %d" % (i + 1), c) for i, c in enumerate(B["chains"])] + \
+              [("wide tables %d" % (i + 1), c) for i, c in enumerate(B["wide"])]
     # self-test of the mechanism model: the pinned combine_fields (1-d result) must violate MechRefines
     r = ctx.tlc("FieldOpsMC.tla", what="self-test: combine_fields building a 1-d result violates MechRefines",
                 cfg_text=cfg(constants=_consts(B["single"], Shapes={0, 2}, NFields={2}, Rots={0}, Names1=1, Forms1={"list"},
@@ -846,13 +908,15 @@ def run(ctx):
     if "MechRefines" not in r.violated:
         raise MachineryError("self-test failed: MechRefines not violated by the deviating mechanism")
     for label, c in configs:
+        small = c["MaxDepth"] == 1 and label.startswith("wide")
         # 1. design level: laws of the statement + mechanism refinement on every transition of every behaviour
-        ctx.tlc("FieldOpsMC.tla", what="laws + mechanism refinement, %s" % label,
-                cfg_text=cfg(constants=_consts(c), invariants=INVARIANTS, view="LastView"),
-                workers=16, coverage=False, timeout=3000)
-        # 2. export every behaviour (spec -> code) and replay it
-        r2 = ctx.tlc("FieldOpsMC.tla", what="export behaviours, %s" % label,
-                     cfg_text=cfg(constants=_consts(c, DoExport=True), constraints=["Export"]),
+        if not small:
+            ctx.tlc("FieldOpsMC.tla", what="laws + mechanism refinement, %s" % label,
+                    cfg_text=cfg(constants=_consts(c), invariants=INVARIANTS, view="LastView"),
+                    workers=16, coverage=False, timeout=3000)
+        # 2. export every behaviour (spec -> code) and replay it (few states: laws and export in one run)
+        r2 = ctx.tlc("FieldOpsMC.tla", what=("laws + mechanism refinement + export, %s" if small else "export behaviours, %s") % label,
+                     cfg_text=cfg(constants=_consts(c, DoExport=True), constraints=["Export"], invariants=INVARIANTS if small else []),
                      workers=1, coverage=True, require=ACTIONS, timeout=3000)     # vacuity guard: every action fired
         # (the fourth component of the key is the name style: the scenario and its operations are spelt in it)
         scens = {tuple(s["key"]): respell({"init": s["init"], "pool": s["pool"]}, s["key"][3]) for s in r2.records.get("SCEN", [])}
@@ -872,19 +936,11 @@ def run(ctx):
     nseed = B["seeded"]
     sch = []
     while len(sch) < nseed:
-        scen, ops = seeded_chain(rng)
-        try:
-            uni = scenario_universe(scen)
-            for a in [scen["init"]] + list(scen["pool"].values()):
-                for f in a["fields"]:
-                    uni.table(f, list(a["shape"]) + list(f["sub"]))
-                    uni.table(f, list(scen["init"]["shape"]) + list(f["sub"]))
-            for op in ops:
-                for f in op["add"]:
-                    uni.table(f, list(scen["init"]["shape"]) + list(f["sub"]))
-        except Unusable:
-            continue                      # two tokens would coincide (1-byte kinds, flags of a 0-d array): draw another scenario
-        sch.append((scen, ops))
+        # (drawn one after the other from the seeded generator, screened in parallel, kept in the order drawn)
+        cand = [seeded_chain(rng) for _ in range(max(64, int(1.3 * (nseed - len(sch)))))]
+        oks = pmap(_usable_batch, [cand[i:i + 16] for i in range(0, len(cand), 16)], chunk=1)
+        sch += [c for c, ok in zip(cand, [o for part in oks for o in part]) if ok]
+    del sch[nseed:]
     steps.add_chains(sch)
     ctx.sample({"seeded_initial": sch[0][0]["init"], "operations": [{k: v for k, v in o.items() if v not in ([], "")} for o in sch[0][1]]}, cap=8)
     # 3. code -> spec: every distinct step observed (exported behaviours and seeded chains) is judged by the trace specification
@@ -968,7 +1024,7 @@ def run(ctx):
             raise MachineryError("projection self-test failed: a flipped byte in a nested leaf kept its token (or another field lost its)")
     S = B["single"]
     ctx.rule = ("every single field operation over the full alphabet (arrays of shape (), (3,), (2,2) with %s fields typed by %d rotations of "
-                "{i4, >i4, f8, >f8, S3, U2, i2(2,), f4(2,2), b1(8,), >c8, nested{a:>f4, zz:i2(2,)}, nested(2,){b:>U2, m:{a:>i4, x:f8}, p:S3}} - a "
+                "{i8, >i4, f8, >f8, S3, U2, i2(2,), f4(2,2), b1(16,), >c8, nested{a:>f4, zz:i2(2,)}, nested(2,){b:>U2, m:{a:>i4, x:f8}, p:S3}} - a "
                 "nested structured field is ONE field whose inner field sequence, inner byte orders and data must be retained; its inner "
                 "names equal outer names, the name no array has, names of added fields and of fields of the other arrays -, the names spelt plainly / differing only in case and long / non-ASCII "
                 "(one spelling per scenario, pairwise covering); every ordered name selection of length <= %d incl. a missing name, strict and "
@@ -981,7 +1037,7 @@ def run(ctx):
                 (sorted(S["NFields"]), len(S["Rots"]), S["Names1"], nbeh, nseed, len(_CAT), len(_SHAPES), steps.calls))
     ctx.exhaustive = True
     ctx.traces = ctx.traces                # steps accepted by TLC (counted by tracecheck)
-    ctx.note(bounds={"single": _j(B["single"]), "chains": [_j(c) for c in B["chains"]]}, behaviours_replayed=nbeh,
+    ctx.note(bounds={"single": _j(B["single"]), "chains": [_j(c) for c in B["chains"]], "wide": [_j(c) for c in B["wide"]]}, behaviours_replayed=nbeh,
              seeded_chains=nseed, real_calls=steps.calls, distinct_steps=len(steps.recs),
              nongating_name_forms_or_outside_types_not_matching_documented_result=tally)
     ctx.assumptions = ["data tokens are NaN-free and -0.0-free, so element-wise equality of a field with its source is byte equality of the native-order values",
